@@ -3,14 +3,19 @@
    PARTIAL: proved - (1) the weights of the copies of an unadjusted stratification (C04_defaults), (2) the
    per-flow summation identities that make the summed stratified rates equal the unstratified
    rate, (3) that summing over strata commutes with the whole Euler and RK4 trajectory whenever it
-   intertwines the two right-hand sides.  Not proved as one theorem: that the index-based
-   right-hand side of the stratified model is intertwined with the unstratified one for every
-   model (the assembly of (1)-(2) over the flow list); that, strain sums and proportionate mixing
-   are established by the metamorphic oracle and the correspondence only (DESIGN.md 6.3). *)
+   intertwines the two right-hand sides, (4) the assembly over the flow list: for every well-formed model and
+   every ordinary, partial or strain stratification, if the copies' rates add up to the parent's rate flow by flow
+   then the net rates of the copies of every compartment add up to that compartment's net rate (every copy keeps
+   its ends inside the groups of its parent's ends, the groups are disjoint).  Not proved as one theorem: the
+   instantiation of (4) with the index-based right-hand sides of the two models (the identification of the
+   per-flow rates of C01 at the aggregated state, which for infection flows involves the force of infection of the
+   stratified model), the age case of (4) (ageing flows stay inside one group: covered by the generic statement,
+   not instantiated); those, strain sums and proportionate mixing are established by the metamorphic oracle and the
+   correspondence only (DESIGN.md 6.3). *)
 From Coq Require Import QArith Qcanon List String Bool.
 Import ListNotations.
 From S2 Require Import Base.Num Base.Arr Model.Expr Model.Struct Model.Rates Model.Solvers Spec.RatesSpec
-     Proofs.NumQc Proofs.CopiesProofs Proofs.AggregateProofs Props.Examples.
+     Proofs.NumQc Proofs.BuildProofs Proofs.CopiesProofs Proofs.AggregateProofs Proofs.InvarianceProofs Proofs.Assembly Props.Examples.
 
 (* the copies of an unadjusted stratification carry the parent's weight, or the parent's weight
    divided by the number of strata for entry flows, destination-only stratified transitions
@@ -63,9 +68,48 @@ Theorem C03_traj_rk4 :
 Proof. exact rk4_trajectory_aggregates. Qed.
 Print Assumptions C03_traj_rk4.
 
+(* every copy of a flow keeps its ends among the copies of its parent's ends (entry / exit flows keep the missing end) *)
+Theorem C03_copies_stay_in_their_groups :
+  forall s f fl g, flow_shape f -> stratify_flow s f = Ok fl -> In g fl ->
+    end_in (group s) (f_dst f) (f_dst g) /\ end_in (group s) (f_src f) (f_src g).
+Proof. exact copies_ends_in_groups. Qed.
+Print Assumptions C03_copies_stay_in_their_groups.
+
+(* the assembly, for every well-formed model (every model the build API produces, C12_wf_invariant) and every
+   ordinary, partial or strain stratification: whatever the per-flow rates, if the rates of the copies of each flow
+   add up to the rate of that flow, the net rates (inflow minus outflow) of the copies of each compartment add up to
+   the net rate of that compartment *)
+Theorem C03_assembly :
+  forall (O : NumOps) (T : NumTheory O) (m : model) (s0 : strat) (m' : model) (rate rate' : flow -> F O),
+    wf m -> NoDup (s_strata (normalise_strat s0)) ->
+    stratify_with m s0 = Ok m' -> is_age (s_kind (normalise_strat s0)) = false ->
+    (forall f, In f (m_flows m) -> fsum O (map rate' (copies_of (normalise_strat s0) f)) = rate f) ->
+    forall c, In c (m_comps m) ->
+      fsum O (map (fun c' => net_rate O rate' (m_flows m') c') (group (normalise_strat s0) c))
+      = net_rate O rate (m_flows m) c.
+Proof. exact stratified_net_rates. Qed.
+Print Assumptions C03_assembly.
+
 (* non-vacuity: in the example model the two copies of the replacement-birth flow carry weight 1/2
    each (entry flow into a newly stratified destination) and the universal-death copies keep 1/64 *)
 Example C03_nonvacuous :
   let w i := this (weight_spec QcOps ex_env (Q2Qc 0) ex_state (nth i (m_flows ex_m) dflow_ex)) in
   w 10%nat = (1#2)%Q /\ w 11%nat = (1#2)%Q /\ w 4%nat = (1#64)%Q /\ w 9%nat = (1#64)%Q.
 Proof. vm_compute. repeat split. Qed.
+
+(* non-vacuity of the assembly: the example's age-group stratification (an ordinary stratification with a mixing
+   matrix) applied to the model built by the operations before it satisfies the premises, for any copy rates *)
+Definition pre_ops : list Model.Program.op := firstn 6 ex_ops.
+Example C03_assembly_nonvacuous :
+  match Model.Program.build_ok 0 2 (1#2) ["S"; "I"; "R"]%string ["I"]%string pre_ops with
+  | Some m0 => wf m0 /\ NoDup (s_strata (normalise_strat ex_age)) /\ is_age (s_kind (normalise_strat ex_age)) = false
+               /\ (exists m1, stratify_with m0 ex_age = Ok m1 /\ List.length (m_flows m1) = 14%nat)
+  | None => False
+  end.
+Proof.
+  destruct (Model.Program.build_ok 0 2 (1#2) ["S"; "I"; "R"]%string ["I"]%string pre_ops) as [m0|] eqn:E; [|vm_compute in E; discriminate].
+  split; [eapply wf_build; exact E|].
+  split; [vm_compute; repeat constructor; cbn; intuition discriminate|].
+  split; [reflexivity|].
+  vm_compute in E. injection E as <-. vm_compute. eexists. split; reflexivity.
+Qed.
